@@ -1003,6 +1003,7 @@ class IMAPClientCommand:
         self.list_patterns: list[str] = []
         self.list_status_atts: list[StatusAtt] = []
         self.list_mailbox: str = ""
+        self.list_reference: str = ""
 
         self._p_simple_string(" ")
 
@@ -1016,7 +1017,19 @@ class IMAPClientCommand:
 
         # Reference mailbox name
         #
-        self.mailbox_name = self._p_mailbox()
+        # NOTE: `mailbox_name` is the reference as a normalized mailbox name
+        #       (like `_p_mailbox()` produces.) Normalizing removes a trailing
+        #       hierarchy delimiter, but 'LIST "foo/" "%"' asks for the
+        #       children of 'foo', not for every mailbox whose name starts
+        #       with 'foo'. So `list_reference` keeps it as the client sent it.
+        #
+        self.list_reference = self._p_astring()
+        if self.list_reference.lower() == "inbox":
+            self.mailbox_name = "inbox"
+        elif self.list_reference != "":
+            self.mailbox_name = os.path.normpath(self.list_reference)
+        else:
+            self.mailbox_name = ""
         self._p_simple_string(" ")
 
         # Mailbox pattern(s): either a single list-mailbox or a
